@@ -303,6 +303,9 @@ func (c *nxCluster) check() string {
 	if c.cfg.RequireComplete {
 		if _, more := c.defaultEvent(); !more {
 			for _, op := range c.ops {
+				if op.id < c.cfg.BusyAllowedBefore && op.status == "refused:"+ErrSystemBusy.Error() {
+					continue // refused at once while the rate limiter was engaged: the client retries later
+				}
 				if op.status != "Completed" && op.status != "lost-in-crash" {
 					c.fail("C17: at the end of the fault-free scenario op%d (%c at replica %d) has status %q instead of Completed", op.id, op.kind, op.at, op.status)
 				}
@@ -327,7 +330,7 @@ func (c *nxCluster) Canon() []byte {
 			n := h.node
 			raft.VPeer{P: &n.p}.Canon(b)
 			b.U(n.appliedIndex, n.pushedIndex, n.confirmedIndex, n.sm.GetLastApplied(), h.usm.val, h.usm.version, h.lastUpdIdx)
-			b.Bool(h.pipe.step).Bool(h.pipe.apply).Bool(h.pipe.commit).Bool(h.pipe.save).Bool(h.pipe.recover).Bool(c.lazy[h.id])
+			b.Bool(h.pipe.step).Bool(h.pipe.apply).Bool(h.pipe.commit).Bool(h.pipe.save).Bool(h.pipe.recover).Bool(c.lazy[h.id]).Bool(c.scriptHold[h.id])
 			b.U(h.maxTermSent)
 		}
 		st := nxState(h)
